@@ -224,3 +224,34 @@ Definition request_decode (B : bindings) (tbl : list (N * N * String.string * St
         | Panic p => Panic p
         end
     end.
+
+(** * tlb/dns.go, readDNSSmcAddress / readDnsAdnlAddress: the loop over
+      cap_list_next$1 head:SmcCapability tail:SmcCapList (proto_list likewise).
+    [item s] decodes one list head from the bits left in the cell: the bits after it, or
+    [None] (it failed; a failed sum-type match consumes nothing).  [skip] is the design
+    that goes on to the next iteration after a failed head instead of returning its error.
+    The Go loop has no counter: fuel only makes the definition structural, and running
+    out of it ([Err EFuel]) stands for a loop that is still running. *)
+Section DnsList.
+  Variable item : list bool -> option (list bool).
+
+  Fixpoint dns_list_loop (skip : bool) (fuel : nat) (s : list bool) : res (list bool) :=
+    match fuel with
+    | O => Err EFuel
+    | S f =>
+        match item s with
+        | None => if skip then dns_list_loop skip f s else Err EOther
+        | Some r =>
+            match r with
+            | [] => Err ENotEnoughBits                 (* next, err = c.ReadBit() *)
+            | next :: r' => if next then dns_list_loop skip f r' else Ok r'
+            end
+        end
+    end.
+
+  Definition dns_list (skip : bool) (fuel : nat) (s : list bool) : res (list bool) :=
+    match s with
+    | [] => Err ENotEnoughBits
+    | next :: r => if next then dns_list_loop skip fuel r else Ok r
+    end.
+End DnsList.
